@@ -40,6 +40,8 @@ class Ctx:
         if os.path.exists(fp):
             with open(fp) as f:
                 floors = json.load(f).get(self.rep.prop, floors)
+        # families that answer only where the code resolves ("undecided" otherwise) have no floor by design
+        floors = {k_: v_ for k_, v_ in floors.items() if k_ not in ("R-RANGE",)}
         counts = {}
         seen = set()
         for o in self.rep.obs:
